@@ -1197,6 +1197,10 @@ func (sr *SqlRun) observable(opIdx int) (map[string][]string, string) {
 	}
 	if w := wrongAnswers(out); len(w) > 0 {
 		sr.viol("C06", "query-answer", w[0], opIdx)
+		if sr.restarts > 0 && (flProp == "C09" || flProp == "C10") {
+			// after a restart a wrong answer belongs to the restart property under test as well
+			sr.viol(flProp, "query-answer-after-restart", w[0], opIdx)
+		}
 	}
 	return out, ""
 }
@@ -1503,6 +1507,9 @@ func (sr *SqlRun) execute(ops []Op, gen *sqlGen) {
 				before, msg = sr.observable(i)
 				if msg != "" {
 					sr.viol("C06", "battery-failed", msg, i)
+					if sr.restarts > 0 && (flProp == "C09" || flProp == "C10") {
+						sr.viol(flProp, "query-refused-after-restart", msg, i)
+					}
 					before = nil
 				}
 				if pi := sr.S.Shutdown(); pi != nil {
